@@ -13,37 +13,37 @@ import (
 )
 
 type EstOpts struct {
-	Active   bool    // the stack connects (else it listens and the peer connects)
-	LPort    uint16  // stack-side port (listen port for passive; 0 = ephemeral for active)
-	PPort    uint16  // peer port
-	PeerISS  uint32
-	OwnISS   *uint32 // active only (steered)
-	MSS      uint16  // peer's MSS option (0 = no option => 536)
-	WS       int     // peer's window scale (-1 = no option)
-	TS       bool    // peer offers/echoes timestamps
-	SACK     bool    // peer sends SACK-permitted
-	Window   uint16  // window field of the peer's SYN / SYN-ACK (unscaled)
-	RcvBuf   int     // stack-side receive buffer (0 = default)
-	SndBuf   int
+	Active  bool   // the stack connects (else it listens and the peer connects)
+	LPort   uint16 // stack-side port (listen port for passive; 0 = ephemeral for active)
+	PPort   uint16 // peer port
+	PeerISS uint32
+	OwnISS  *uint32 // active only (steered)
+	MSS     uint16  // peer's MSS option (0 = no option => 536)
+	WS      int     // peer's window scale (-1 = no option)
+	TS      bool    // peer offers/echoes timestamps
+	SACK    bool    // peer sends SACK-permitted
+	Window  uint16  // window field of the peer's SYN / SYN-ACK (unscaled)
+	RcvBuf  int     // stack-side receive buffer (0 = default)
+	SndBuf  int
 }
 
 // Conn is an established connection between the stack and the scripted peer.
 type Conn struct {
-	P       *Peer
-	EP      tcpip.Endpoint
-	WQ      *waiter.Queue
-	Listener tcpip.Endpoint
+	P            *Peer
+	EP           tcpip.Endpoint
+	WQ           *waiter.Queue
+	Listener     tcpip.Endpoint
 	LPort, PPort uint16
-	ISS, IRS uint32 // stack's and peer's initial sequence numbers
-	PeerWS  uint8   // shift the stack must apply to the peer's window field
-	OwnWS   uint8   // shift the stack announced for its own window field
-	WSok    bool
-	TSok    bool
-	SACKok  bool
-	PeerMSS int
-	tsval   uint32
-	tsecr   uint32
-	SynSeg  Seg // the stack's SYN or SYN-ACK
+	ISS, IRS     uint32 // stack's and peer's initial sequence numbers
+	PeerWS       uint8  // shift the stack must apply to the peer's window field
+	OwnWS        uint8  // shift the stack announced for its own window field
+	WSok         bool
+	TSok         bool
+	SACKok       bool
+	PeerMSS      int
+	tsval        uint32
+	tsecr        uint32
+	SynSeg       Seg // the stack's SYN or SYN-ACK
 }
 
 func (c *Conn) tsOpt() []byte {
